@@ -16,7 +16,7 @@ Proved here (for all `dim`, `maxSize`):
 Not proved (Spec-only, see conf/C06.json open_obligations): completeness and
 irredundancy of the orderly generation, absence of panics inside `check_canonicity`.
 -/
-import DSymVerif.Proofs.DSetGenSound
+import DSymVerif.Proofs.DSetGenTotal
 
 namespace DSymVerif.C06
 open DSymVerif.DS DSymVerif.DSG
@@ -49,10 +49,8 @@ example : fuel 1 1 ≤ 1000 := by decide
 
 /-! ### 2. scan_orbit with gap 1 -/
 
-/-- witness: 1 -0- 2 -2- 3 -0- 4, everything else undefined (dim 2) -/
-def exPath : DSetData := { size := 4, dim := 2, op := #[2, 0, 0, 1, 0, 3, 4, 0, 2, 3, 0, 0] }
-
-theorem exPath_valid : ValidPartialSet exPath := validB_sound (by decide)
+/-! witness used in the examples: `exPath` = 1 -0- 2 -2- 3 -0- 4, everything else undefined
+    (dim 2), with `exPath_valid`, `exPath_linked` (Proofs/DSetGenTotal.lean) -/
 
 /-- On a partial D-set whose defined entries are chambers and form partial involutions
     (`ValidPartialSet`), `scan_orbit(ds, i, j, d)` with in-range arguments does not panic;
@@ -161,7 +159,50 @@ theorem counters_consecutive {dim maxSize : Nat} {l : List (DSetData × Nat)}
 
 example : (dsetsNumbered 1 2).map (·.map (·.2)) = some [1, 2, 3, 4] := by decide
 
-/-! ### 5. not proved: statements left to the Spec (evaluated on every run) -/
+/-! ### 5. no panic -/
+
+/-- `check_canonicity` on a well-formed partial D-set in which every chamber but the first
+    has a defined entry to a smaller chamber, of size ≤ max_size: every index is in range
+    and `new2old[d]` is a chamber (never 0) whenever `op_unchecked(i, new2old[d])` is
+    evaluated — the breadth-first numbering has reached d before row d is compared. -/
+theorem check_canonicity_never_panics {ds : DSetData} {maxSize : Nat} (hv : ValidPartialSet ds)
+    (hl : Linked ds) (hsz : ds.size ≤ maxSize) {irs : Array Bool} (hirs : irs.size = maxSize + 1) :
+    ∃ r, checkCanonicity ds maxSize irs = .ok r :=
+  checkCanonicity_total hv hl hsz hirs
+
+example : ValidPartialSet exPath ∧ Linked exPath ∧ exPath.size ≤ 4 ∧
+    checkCanonicity exPath 4 #[false, true, true, true, true] =
+      .ok (some #[false, true, true, true, true]) :=
+  ⟨exPath_valid, exPath_linked, by decide, by decide⟩
+
+/-- **The generator never panics** for `dim ≥ 1` (for `dim = 0` `PartialDSet::new` asserts
+    and `DSets::new` panics at construction, in model and implementation alike): no assert
+    of `set`, no `Vec` index out of range, no `usize` underflow in `idx`, no exhausted
+    fuel, in any state of the search tree, for every size bound. -/
+theorem generator_never_panics {dim maxSize : Nat} (hdim : 1 ≤ dim) :
+    Outcome.panic ∉ dsets dim maxSize ∧ ∃ l, dsetsNumbered dim maxSize = some l := by
+  have hnp := dsets_no_panic (maxSize := maxSize) hdim
+  have herr := dsets_no_err dim maxSize
+  refine ⟨hnp, ?_⟩
+  unfold dsetsNumbered
+  generalize dsets dim maxSize = l at hnp herr
+  suffices h : ∀ c, ∃ r, numbered l c = some r from h 0
+  induction l with
+  | nil => intro c; exact ⟨[], rfl⟩
+  | cons a l ih =>
+    intro c
+    have hl : Outcome.panic ∉ l := fun h => hnp (List.mem_cons_of_mem _ h)
+    have hl' : Outcome.err ∉ l := fun h => herr (List.mem_cons_of_mem _ h)
+    cases a with
+    | ok ds =>
+      obtain ⟨r, hr⟩ := ih hl hl' (c + 1)
+      exact ⟨(ds, c + 1) :: r, by simp [numbered, hr]⟩
+    | err => exact absurd List.mem_cons_self (fun h => herr h)
+    | panic => exact absurd List.mem_cons_self hnp
+
+example : dsetsNumbered 0 3 = none := by decide
+
+/-! ### 6. not proved: statements left to the Spec (evaluated on every run) -/
 
 /-- isomorphism of D-sets: a bijection of the chambers carrying every operation to the
     operation with the same index -/
@@ -181,11 +222,5 @@ def generation_complete_statement : Prop :=
 def generation_irredundant_statement : Prop :=
   ∀ dim maxSize, (dsets dim maxSize).Pairwise
     (fun a b => ∀ s t, a = Outcome.ok s → b = Outcome.ok t → ¬ Iso s t)
-
-/-- no panic anywhere for `dim ≥ 1`: proved for everything except `check_canonicity`
-    (`compare_renumbered_from` reads `new2old[d]`, which must be non-zero — a
-    breadth-first/connectedness argument not carried out) — validated differentially -/
-def generator_never_panics_statement : Prop :=
-  ∀ dim maxSize, 1 ≤ dim → Outcome.panic ∉ dsets dim maxSize
 
 end DSymVerif.C06
